@@ -210,7 +210,15 @@ class SemantivaOrchestrator(ABC):
             )
 
         # NOW instantiate nodes (this may emit 'instantiate' events)
-        nodes, node_defs = self._instantiate_nodes(resolved_spec, logger)
+        try:
+            nodes, node_defs = self._instantiate_nodes(resolved_spec, logger)
+        except BaseException as exc:
+            # pipeline_start was already emitted: close the run in the trace as well.
+            if trace is not None and run_id is not None:
+                trace.on_pipeline_end(run_id, {"status": "error", "error": str(exc)})
+                trace.flush()
+                trace.close()
+            raise
         self._last_nodes = list(nodes)
 
         trace_active = (
